@@ -2,6 +2,7 @@
 from vlib.tok import f64, s as S, lst
 from checks import regiongen as G
 ID = 'C06'
+HARNESS_ENV = {'NIXDRV_DOOR_MOD': '1'}      # every retrieval is asked through every entry point of the public API (harness/fam_region.cpp)
 THEOREMS = ['Nix.C06.mtagOffsetCount_rows', 'Nix.C06.prepare_ok', 'Nix.C06.prepare_indep', 'Nix.C06.mtag_list_eq_map_single', 'Nix.C06.mtag_single_of_list', 'Nix.C06.mtag_index_oob', 'Nix.C06.mtag_all_of_none', 'Nix.C06.mtag_feature_all_of_none', 'Nix.C06.mtag_region_spec', 'Nix.C06.mtag_feature_tagged', 'Nix.C06.mtag_feature_untagged', 'Nix.C06.mtag_feature_indexed_single', 'Nix.C05.mtagDim_spec']
 RULE = ('random multi-tags: N<=8 positions; 1-D positions tagging 1-D data, N x D tagging D-dimensional data, D2 != D; with / without extents; '
         'all descriptor kinds as in C05; default (Exclusive) and Inclusive; single indices, index lists with repeats, the empty list (= all), '
